@@ -721,4 +721,26 @@ func c09Text(c *runCtx) {
 		}
 	}
 	c.emit(map[string]any{"cmd": "text", "strings": strs}, outs)
+	// every character of the first planes' lower part once, alone between letters and at the edges:
+	// each control character, each kind of space
+	strs, outs = nil, nil
+	for cp := rune(0); cp <= 0x3100; cp++ {
+		if cp >= 0xd800 && cp <= 0xdfff {
+			continue
+		}
+		for _, s := range []string{"a" + string(cp) + "b", string(cp) + "x" + string(cp)} {
+			strs = append(strs, s)
+			outs = append(outs, map[string]any{"safe": text.Safe(s), "safeOneLine": text.SafeOneLine(s), "cleanup": text.Cleanup(s), "cleanupOneLine": text.CleanupOneLine(s)})
+			if !text.Safe(text.Cleanup(s)) || !text.SafeOneLine(text.CleanupOneLine(s)) {
+				c.violation(c.nCases, "C09/cleanup-unsafe", fmt.Sprintf("a cleaned text is not safe: %q", s), nil)
+			}
+		}
+	}
+	c.count("text:every-character-below-0x3100")
+	c.emit(map[string]any{"cmd": "text", "strings": strs}, outs)
+}
+
+// the text slice on its own (C16 depends on it: imported text is cleaned, then validated)
+func init() {
+	props["Text"] = func(c *runCtx) { c.prop = "C09"; c09Text(c) }
 }
